@@ -125,6 +125,8 @@ def make_param(name, t, path):
             path.symbols[name] = {'len': v.length, 'at': v.at}
         elif isinstance(v, SMap):
             v = SMapCell(v) if getattr(t, 'mutable', False) else v
+        elif isinstance(v, S.SIter):
+            path.symbols[name] = {'len': v.seq.length, 'at': v.seq.at}
         elif isinstance(v, SFunc):
             pass
         elif hasattr(v, 't'):
@@ -252,6 +254,7 @@ def _run_path(world, c, params, tag, it, path, rep, first):
     for name in env:
         if name not in formal:
             it.ghost_vars[name] = env[name]     # ghost parameter
+        it.ghost_vars['old_' + name] = env[name]
     old = Frame(module=c.module)
     old.vars.update(fr.vars)
     for nm, v in list(fr.vars.items()) + [
